@@ -313,9 +313,10 @@ def check_c10(run):
             {"name": "c", "sal": -1, "desc": "base-c", "ver": 1}]
     sessions = []
 
-    def add(text, cls, declared=None):
+    def add(text, cls, declared=None, flags=None):
         s = {"id": len(sessions) + 1, "kind": "compile", "class": cls, "base": base, "declared": declared or [],
              "selffirst": rng.random() < 0.35, "cleared": rng.random() < 0.25, "baseincr": rng.random() < 0.4}
+        s.update(flags or {})
         if isinstance(text, bytes):
             try:
                 s["text"] = text.decode("utf-8")
@@ -339,6 +340,16 @@ def check_c10(run):
         add(t, "valid", decl)
         dup = valid_text(decl + [dict(rng.choice(decl), desc="again")])
         add(dup, "dup")
+    # the states a text can meet, crossed completely with texts that mix a new first-running rule with a re-definition of an
+    # installed rule (same and changed salience): text compiled first / base installed incrementally / pool emptied first
+    staged = [[("x_1", 9), ("c", -1)], [("x_1", 9), ("c", 0)], [("d", 9), ("b", 2)], [("d", 9), ("a", 2), ("c", 5)], [("e", -9), ("a", 7)]]
+    for st in staged:
+        decl = [{"name": n, "sal": sl, "desc": "new-" + n, "ver": 2} for n, sl in st]
+        t = valid_text(decl)
+        for sf in (False, True):
+            for cl in (False, True):
+                for bi in (False, True):
+                    add(t, "valid", decl, {"selffirst": sf, "cleared": cl, "baseincr": bi})
     for b in ["", " ", "\n\t  \n", "   \r\n"]:
         add(b, "blank")
     small = 'rule "d" "new-d" salience 1 begin\n  echo(@name, @sal, @desc, 2)\n  x = 1 + 2\n  if x > 2 { return x }\nend\n'
